@@ -754,6 +754,27 @@ impl ClaimSpec {
   }
 }
 
+/// On the calling thread: hands a claim that cannot be serialised to JSON (a map keyed by tuples) to throwaway builders of
+/// both builder layers. The pinned library panics there; whatever it does, builders created afterwards must not notice.
+pub fn fail_a_claim_on_throwaway_builders() {
+  let _ = crate::engine::catch(|| {
+    let mut m = std::collections::HashMap::new();
+    m.insert((1u8, 2u8), 3u8);
+    let mut b = GenericBuilder::<V4, Local>::default();
+    if let Ok(c) = CustomClaim::try_from(("unserialisable", m)) {
+      b.set_claim(c);
+    }
+  });
+  let _ = crate::engine::catch(|| {
+    let mut m = std::collections::BTreeMap::new();
+    m.insert((1u8, 2u8), "x");
+    let mut b = PasetoBuilder::<V4, Local>::default();
+    if let Ok(c) = CustomClaim::try_from(("unserialisable", m)) {
+      b.set_claim(c);
+    }
+  });
+}
+
 /// harness-side claim type: the `PasetoClaim` trait is public, so callers may define their own claims
 #[derive(Clone, Debug)]
 pub struct AnyClaim {
